@@ -2,7 +2,7 @@
 From Coq Require Import List Arith ZArith Reals PrimFloat.
 Import ListNotations.
 From Flocq Require Import Core.
-From Yaqs Require Import Model.JumpPipeline Model.Grid Proofs.JumpPipelineP Proofs.GridP Gen.SmallGen Proofs.SmallGenP.
+From Yaqs Require Import Model.JumpPipeline Model.Grid Proofs.JumpPipelineP Proofs.GridP Gen.TimesGen Proofs.TimesGenP.
 From Yaqs Require Import Model.SolverClock Proofs.SolverClockP.
 
 (* number of steps computed by the grid construction, in binary64 round-to-nearest-even semantics (Flocq):
@@ -54,7 +54,7 @@ Print Assumptions C15_dense_backends_entries.
 Example C15_example : grid_len 0x1.999999999999ap-3%float 0x1.999999999999ap-4%float = 3%Z /\ cols2 (fun _ => false) false 2 = [(0, [Dh; J; U; Dh; J])].
 Proof. vm_compute. split; reflexivity. Qed.
 
-(* tie to the source by translation (Gen/SmallGen.v regenerated on every run): the expression assigned to AnalogSimParams.times is
+(* tie to the source by translation (Gen/TimesGen.v regenerated on every run): the expression assigned to AnalogSimParams.times is
    the model's grid: round(T/dt)+1 points, point j = fl(dt*j) *)
 Theorem C15_source_times_is_model : forall elapsed_time dt, times_src elapsed_time dt = grid elapsed_time dt.
 Proof. exact times_src_is_model. Qed.
